@@ -46,12 +46,30 @@ class CsFn(Case):
             ctx.prove("dynamic-element/size-unknown", d.size is None and d.dynamic is True)
             two = it.call(cstruct._make_array, [cs, it.call(cstruct._make_array, [cs, cs.uint16, 3]), 2])
             ctx.prove("nested/size", two.size == 12 and two.type.num_entries == 3 and two.num_entries == 2)
+        elif w == "make_array_identity":
+            # the element type is the *argument* (identity), whatever was built before: two distinct types that share
+            # their name and size (nested definitions with the same local name) get their own array classes
+            e1 = cs._make_int_type("entry", 4, False)
+            e2 = cs._make_int_type("entry", 4, True)
+            for cnt in (2, None):
+                a1 = it.call(cstruct._make_array, [cs, e1, cnt])
+                a2 = it.call(cstruct._make_array, [cs, e2, cnt])
+                a1b = it.call(cstruct._make_array, [cs, e1, cnt])
+                ctx.prove(f"same-name-elements[{cnt}]/type-is-argument", a1.type is e1 and a2.type is e2 and a1b.type is e1)
         elif w == "make_pointer":
             for pn in ("uint8", "uint16", "uint32", "uint64"):
                 c2 = cstruct(pointer=pn)
                 pt = it.call(cstruct._make_pointer, [c2, c2.uint8])
                 base = c2.typedefs[pn]
                 ctx.prove(f"{pn}/width-from-configuration", pt.size == base.size and pt.alignment == base.alignment and pt.type is c2.uint8 and pt.cs is c2)
+            # the width follows the configuration current at the call, also when it changes on one cstruct object
+            c3 = cstruct()
+            for pn in ("uint16", "uint64", "uint8", "uint32", "uint16"):
+                c3.pointer = getattr(c3, pn)
+                for target in (c3.uint32, c3.char, c3.uint8):
+                    pt = it.call(cstruct._make_pointer, [c3, target])
+                    ctx.prove(f"reconfigured-{pn}/{target.__name__}*/width-from-current-configuration",
+                              pt.size == c3.pointer.size and pt.alignment == c3.pointer.alignment and pt.type is target)
         elif w == "make_type":
             s = z3.Int("s")
             ctx.assume(s >= 1)
